@@ -445,6 +445,10 @@ fn random_text(fam: &str, alpha: &BTreeMap<String, Vec<u32>>, uni: &[u32], rng: 
         let l = &alpha[c];
         l[rng.gen_range(0..l.len())]
     };
+    let pick_any = |rng: &mut StdRng, cs: &[&str]| -> u32 {
+        let c = cs[rng.gen_range(0..cs.len())];
+        pick(rng, c)
+    };
     let n_clusters = rng.gen_range(1..=3);
     for _ in 0..n_clusters {
         let style = rng.gen_range(0..10);
@@ -457,25 +461,24 @@ fn random_text(fam: &str, alpha: &BTreeMap<String, Vec<u32>>, uni: &[u32], rng: 
         }
         if fam == "khmer" {
             if rng.gen_range(0..8) != 0 {
-                let b = ["C", "C", "C", "Ra", "V", "GB", "DC"][rng.gen_range(0..7)];
-                t.push(pick(rng, b));
+                t.push(pick_any(rng, &["C", "C", "C", "Ra", "V", "GB", "DC"]));
             }
             if rng.gen_range(0..4) == 0 {
-                t.push(pick(rng, ["RS", "N"][rng.gen_range(0..2)]));
+                t.push(pick_any(rng, &["RS", "N"]));
             }
             for _ in 0..rng.gen_range(0..=3) {
                 t.push(pick(rng, "H"));
-                t.push(pick(rng, ["C", "C", "Ra", "Ra", "V"][rng.gen_range(0..5)]));
+                t.push(pick_any(rng, &["C", "C", "Ra", "Ra", "V"]));
             }
             for _ in 0..rng.gen_range(0..=2) {
                 if rng.gen_range(0..6) == 0 {
-                    t.push(pick(rng, ["ZWJ", "ZWNJ"][rng.gen_range(0..2)]));
+                    t.push(pick_any(rng, &["ZWJ", "ZWNJ"]));
                 }
-                t.push(pick(rng, ["VPre", "M", "M", "Split"][rng.gen_range(0..4)]));
+                t.push(pick_any(rng, &["VPre", "M", "M", "Split"]));
             }
             if rng.gen_range(0..4) == 0 {
                 t.push(pick(rng, "H"));
-                t.push(pick(rng, ["C", "Ra"][rng.gen_range(0..2)]));
+                t.push(pick_any(rng, &["C", "Ra"]));
             }
             if rng.gen_range(0..3) == 0 {
                 t.push(pick(rng, "SM"));
@@ -488,14 +491,14 @@ fn random_text(fam: &str, alpha: &BTreeMap<String, Vec<u32>>, uni: &[u32], rng: 
                     t.push(pick(rng, "As"));
                     t.push(pick(rng, "H"));
                 }
-                t.push(pick(rng, ["C", "C", "Ra", "IV", "GB"][rng.gen_range(0..5)]));
+                t.push(pick_any(rng, &["C", "C", "Ra", "IV", "GB"]));
                 if rng.gen_range(0..8) == 0 {
                     t.push(pick(rng, "VS"));
                 }
                 for _ in 0..rng.gen_range(0..=1) {
                     if rng.gen_range(0..3) == 0 {
                         t.push(pick(rng, "H"));
-                        t.push(pick(rng, ["C", "Ra"][rng.gen_range(0..2)]));
+                        t.push(pick_any(rng, &["C", "Ra"]));
                     }
                 }
             }
@@ -508,9 +511,8 @@ fn random_text(fam: &str, alpha: &BTreeMap<String, Vec<u32>>, uni: &[u32], rng: 
             }
             if style == 1 {
                 // a sign out of its documented place
-                let c = ["VPre", "MR", "VBlw", "A", "VS"][rng.gen_range(0..5)];
                 let at = rng.gen_range(0..=t.len());
-                t.insert(at, pick(rng, c));
+                t.insert(at, pick_any(rng, &["VPre", "MR", "VBlw", "A", "VS"]));
             }
         }
     }
@@ -589,6 +591,22 @@ fn main() {
     match args.get(1).map(|s| s.as_str()) {
         Some("replay") => replay(&args[2], &args[3], &args[4], args.get(5).map(|s| s.parse().unwrap()).unwrap_or(2)),
         Some("record") => record(&args[2], args[3].parse().expect("seed"), args[4].parse().expect("n"), &args[5]),
+        Some("classes") => {
+            // the grammar terminals allsorts assigns (X07's input table), for cross-checking Reorder's class tables
+            let mut out: BTreeMap<String, BTreeMap<String, Vec<u32>>> = BTreeMap::new();
+            for fam in ["khmer", "myanmar"] {
+                let mut m: BTreeMap<String, Vec<u32>> = BTreeMap::new();
+                for cp in universe(fam) {
+                    if let Some(ch) = char::from_u32(cp) {
+                        let c = if fam == "khmer" { khmer::verif_class(ch) } else { myanmar::verif_class(ch) };
+                        m.entry(c).or_default().push(cp);
+                    }
+                }
+                out.insert(fam.to_string(), m);
+            }
+            std::fs::write(&args[2], serde_json::to_string(&out).unwrap()).expect("write");
+            println!("{}", json!({"families": 2}));
+        }
         Some("one") | Some("shape") => {
             let sp = load_spec(&args[2]);
             let fam = args[3].clone();
